@@ -52,6 +52,7 @@ inductive ReachA (C : Cfg) : St → Prop where
   | fail (s : St) (l : Nat) (rep : ℚ) : ReachA C s → l < C.lines.length → gb s.failed l = false → ReachA C (lineFail C s l rep)
   | step (s : St) (dt : ℚ) : ReachA C s → 0 < dt → ReachA C (step C s dt)
   | stepA (s : St) (dt : ℚ) (cm : Comm) : ReachA C s → 0 < dt → ReachA C (stepA C s dt cm)
+  | spread (s : St) (S : ℚ) : ReachA C s → ReachA C (spreadSec C s S)      -- software failure of the main controller
 
 /-! ### proved -/
 
@@ -204,6 +205,7 @@ theorem isolated_invariant_auto (C : Cfg) (hC : wfB C = true) : ∀ s, ReachA C 
     | fail s l rep _ hl _ ih => exact ih.lineFail w l hl rep
     | step s dt _ _ ih => exact ih.step w dt
     | stepA s dt cm _ _ ih => exact ih.stepA w dt cm
+    | spread s S _ ih => exact ih.congr rfl rfl rfl rfl rfl rfl
   exact this.isolatedOK
 
 /-- all three inductive invariants hold at every reachable state -/
@@ -214,6 +216,7 @@ theorem reach_triple (C : Cfg) (w : WF C) (w2 : WF2 C) : ∀ s, ReachA C s → T
   | fail s l rep _ hl _ ih => exact ih.afterFail w l hl rep
   | step s dt _ _ ih => exact ih.step w w2 dt
   | stepA s dt cm _ _ ih => exact ih.stepA w w2 dt cm
+  | spread s S _ ih => exact ⟨⟨ih.both.inv.congr rfl rfl rfl rfl rfl rfl, ih.both.inv2.congr rfl rfl rfl rfl⟩, ih.sa.congr rfl rfl rfl⟩
 
 /-- **C05, second invariant, for all reachable states** (manual and ICT-based increments in any order): the reported
 position of every switch agrees with its line — an open disconnector or breaker never sits on a line in service. -/
